@@ -203,10 +203,15 @@ def run_harness(binp, tests, outdir, seed, tier, timeout=1500, extra_env=None):
 def run_driver(trace, timeout=1500):
     drv = os.path.join(BUILD, "ocaml", "driver")
     rc, log, dt = sh([drv, trace], timeout=timeout)
-    m = re.search(r"SUMMARY cases=(\d+) ops=(\d+) mismatches=(\d+) bad_cases=(\d+)", log)
-    res = {"ok": rc == 0 and m is not None, "wall_s": dt, "mismatch_lines": [l for l in log.splitlines() if l.startswith("MISMATCH")][:20]}
+    m = re.search(r"SUMMARY cases=(\d+) ops=(\d+) mismatches=(\d+) bad_cases=(\d+) percode=(\S*)", log)
+    res = {"ok": rc == 0 and m is not None, "wall_s": dt, "mismatch_lines": [l for l in log.splitlines() if l.startswith("MISMATCH")][:60]}
     if m:
-        res.update(cases=int(m.group(1)), ops=int(m.group(2)), mismatches=int(m.group(3)), bad_cases=int(m.group(4)))
+        pc = {}
+        for kv in m.group(5).split(","):
+            if ":" in kv:
+                k, _, v = kv.partition(":")
+                pc[k] = int(v)
+        res.update(cases=int(m.group(1)), ops=int(m.group(2)), mismatches=int(m.group(3)), bad_cases=int(m.group(4)), percode=pc)
     else:
         res["log"] = log[-2000:]
     return res
@@ -408,12 +413,19 @@ def run_check(pid, tier, seed, replay=None):
             sc = scan_trace(tr)
             scans[name] = sc
             for caseno, v in sc["violations"]:
+                mt = re.match(r"(C\d+):", v)
+                if mt and "monitor_tags" in spec and mt.group(1) not in spec["monitor_tags"]:
+                    continue
                 violations.append(("monitor", "%s case %d: %s" % (name, caseno, v), {"trace": tr, "case": caseno}))
             if xb["ok"] and sc["ops"] > 0 and name not in spec.get("impl_only_traces", []):
                 d = run_driver(tr)
                 drv[name] = d
                 if not d["ok"]:
                     broken.append("model driver failed on %s: %s" % (name, d.get("log", "")))
+                elif d["mismatches"] and "project_codes" in spec and not any(c in d.get("percode", {}) for c in spec["project_codes"]):
+                    notes.append("divergence outside this property's projection on %s: %s" % (name, d.get("percode")))
+                    d["outside_projection"] = d["mismatches"]
+                    d["mismatches"] = 0
                 elif d["mismatches"]:
                     broken.append("correspondence model<->code fails on trace %s: %d mismatching steps in %d cases, first: %s"
                                   % (name, d["mismatches"], d["bad_cases"], d["mismatch_lines"][:1]))
@@ -491,6 +503,7 @@ def run_check(pid, tier, seed, replay=None):
         "gen_changed_files": g.get("changed", []),
         "gen_untranslated": g.get("untranslated", []),
         "known_findings_seen": seen_known,
+        "notes": notes,
         "explanation": spec.get("explanation", ""),
     }
     cov.update(extra.get("coverage", {}))
